@@ -1,6 +1,7 @@
 package main
 
 import (
+	"errors"
 	"bytes"
 	"fmt"
 	"math"
@@ -58,6 +59,9 @@ var (
 	c06RegEvents int64 // +1 at the start and at the end of every Register call of a live name
 	c06InFlight  int64 // Register calls of live names in progress
 )
+
+var errC06Dirty = errors.New("deferred function of an EARLIER owner of the pooled context ran")
+var dirtyReleases int64
 
 func c06Tick() int64 { return atomic.AddInt64(&c06Clock, 1) }
 
@@ -328,6 +332,13 @@ func c06(r *Run) {
 			return
 		}
 	}
+	// the template a "failed request" renders before it hands its context back (opens a bound tag, then fails)
+	if tree, err, pan := parseSafe([]byte(`{% jsonquote %}{% for i := 0; i < 2; i++ %}"x"{% endfor %}{% include c06-no-such-template %}`), false); err != nil || pan != "" {
+		r.Internal("C06 setup: dirty template does not parse")
+		return
+	} else {
+		dyntpl.RegisterTplKey("c06-dirty", tree)
+	}
 	// sanity: the sequential renders work at all
 	for ki := 0; ki < c06NMain; ki++ {
 		ctx := dyntpl.NewCtx()
@@ -408,6 +419,15 @@ func c06(r *Run) {
 						my = append(my, c06Rec{key: ki, how: how, ci: ci, cs: cs, ce: ce, out: append([]byte(nil), buf.Bytes()...), err: err, pan: pan, gmp: gmp})
 					} else {
 						over++
+					}
+					if rng.Intn(16) == 0 {
+						// hand the context back the way a failed request leaves it: a deferred function registered,
+						// an open bound tag, a render that ended with an error (so nothing was settled). The next
+						// owner — any goroutine — must get a clean context from the pool.
+						ctx.Defer(func() error { return errC06Dirty })
+						buf.Reset()
+						_ = dyntpl.Write(&buf, "c06-dirty", ctx)
+						atomic.AddInt64(&dirtyReleases, 1)
 					}
 					dyntpl.ReleaseCtx(ctx)
 					if yield && rng.Intn(8) == 0 {
@@ -588,6 +608,7 @@ func c06(r *Run) {
 	}
 	r.Dist["renders_checked"] = renders
 	r.Dist["renders_total"] = int(atomic.LoadInt64(&allRenders))
+	r.Dist["contexts_released_dirty"] = int(atomic.LoadInt64(&dirtyReleases))
 	r.Dist["renders_quiet_only_shape_checked"] = int(atomic.LoadInt64(&quietRenders))
 	r.Dist["renders_overlapping_a_registration"] = nontrivial
 	r.Dist["renders_not_recorded"] = dropped
